@@ -44,19 +44,19 @@ class Evaluator:
             tuple: [('metric_name', metric_val), ...]
         """
         
-        labels_numpy = labels.squeeze().detach().numpy()
-        outputs_numpy = outputs.squeeze().detach().numpy()
+        labels_numpy = labels.detach().numpy()
+        outputs_numpy = outputs.detach().numpy()
         
-        
+        # the batch dimension is kept whatever its size (a bare squeeze() drops it for a batch of one sample)
         if self.mode == self.BINARY:
-            y_pred = np.where(outputs_numpy > 0.5, 1, 0)
-            y_true = labels_numpy
+            y_pred = np.where(outputs_numpy.reshape(-1) > 0.5, 1, 0)
+            y_true = labels_numpy.reshape(-1)
         elif self.mode == self.MULTI_CLASS:
-            y_pred = np.argmax(outputs_numpy, axis=1)
-            y_true = labels_numpy
+            y_pred = np.argmax(outputs_numpy.reshape(len(outputs_numpy), -1), axis=1)
+            y_true = labels_numpy.reshape(-1)
         elif self.mode == self.CATEGORICAL:
-            y_pred = np.argmax(outputs_numpy, axis=1)
-            y_true = np.argmax(labels_numpy, axis=1)
+            y_pred = np.argmax(outputs_numpy.reshape(len(outputs_numpy), -1), axis=1)
+            y_true = np.argmax(labels_numpy.reshape(len(labels_numpy), -1), axis=1)
         else:
             raise RuntimeError(f"Evaluator: mode '{self.mode}' is not valid")
             
